@@ -84,6 +84,43 @@ type executor struct {
 	// CatchError is used to handle errors for nullable fields. The closure is generated on
 	// construction to avoid allocations during execution.
 	CatchError func(future.Result[any]) future.Result[any]
+
+	// SerialPromises holds the promises returned by resolvers beneath the root field that is
+	// currently being executed serially. It is only maintained while executing mutations.
+	SerialPromises      []*serialPromise
+	TrackSerialPromises bool
+}
+
+// serialPromise is a promise returned by a resolver during serial execution. If the selection set
+// it belongs to fails before the promise is fulfilled, nothing polls it anymore, so the serial
+// loop has to receive its result itself before moving on to the next root field.
+type serialPromise struct {
+	Channel  ResolvePromise
+	Received bool
+}
+
+// settleSerialPromises blocks until every promise returned beneath the current root field has
+// been fulfilled, so that the next root field never starts while an earlier one still has
+// asynchronous work in flight.
+func (e *executor) settleSerialPromises() {
+	for {
+		pending := false
+		for _, p := range e.SerialPromises {
+			if !p.Received {
+				select {
+				case <-p.Channel:
+					p.Received = true
+				default:
+					pending = true
+				}
+			}
+		}
+		if !pending || e.IdleHandler == nil {
+			e.SerialPromises = e.SerialPromises[:0]
+			return
+		}
+		e.IdleHandler()
+	}
 }
 
 func newExecutor(ctx context.Context, r *Request) (*executor, *Error) {
@@ -140,6 +177,7 @@ func (e *executor) executeMutation(initialValue any) (*OrderedMap, []*Error) {
 	if mutationType == nil || !mutationType.RequiredFeatures.IsSubsetOf(e.Features) {
 		return nil, []*Error{newError(e.Operation, "This schema cannot perform mutations.")}
 	}
+	e.TrackSerialPromises = true
 	if data, err := wait(e, e.executeSelections(e.Operation.SelectionSet.Selections, mutationType, initialValue, nil, true)); err != nil {
 		e.Errors = append(e.Errors, err.(*Error))
 		return nil, e.Errors
@@ -269,6 +307,9 @@ func (e *executor) executeSelections(selections []ast.Selection, objectType *sch
 			f := e.catchErrorIfNullable(fieldDef.Type, e.executeField(objectValue, fields, fieldDef, itemPath))
 			if forceSerial || f.IsReady() {
 				responseValue, err := wait(e, f)
+				if forceSerial {
+					e.settleSerialPromises()
+				}
 				if err != nil {
 					return future.Err[*OrderedMap](err)
 				}
@@ -331,10 +372,18 @@ func (e *executor) executeField(objectValue any, fields []*ast.Field, fieldDef *
 		return future.Err[any](newFieldResolveError(fields, err, path))
 	}
 	if f, ok := resolvedValue.(ResolvePromise); ok {
+		var tracked *serialPromise
+		if e.TrackSerialPromises {
+			tracked = &serialPromise{Channel: f}
+			e.SerialPromises = append(e.SerialPromises, tracked)
+		}
 		return future.Then(future.New(func() (future.Result[any], bool) {
 			var result future.Result[any]
 			select {
 			case r := <-f:
+				if tracked != nil {
+					tracked.Received = true
+				}
 				if !isNil(r.Error) {
 					result.Error = r.Error
 				} else {
